@@ -8,8 +8,41 @@ TMP = "margined_engine:tmp-swap"
 LIQ = "margined_engine:tmp-liquidator"
 
 
+def _is_length_of(ix, v, nxt):
+    """v is (an encoding of) the byte length of the input nxt"""
+    if nxt is None:
+        return False
+    target = ix.inline(nxt)
+    for x in sym.walk(ix.inline(v)):
+        if tag(x) in ("call", "op") and str(payload(x)[0]).split("::")[-1] in ("len", "PtrMetadata") and kids(x) and ix.inline(kids(x)[0]) == target:
+            return True
+    return False
+
+
 def hash_inputs(ix, key):
-    """the byte strings fed to the position-key hasher, in order: [vamm, trader]"""
+    """the address byte strings fed to the position-key hasher, in order: [vamm, trader] (framing inputs such as a
+    length prefix are left out; see hash_framing)"""
+    raw = hash_inputs_raw(ix, key)
+    return [v for i, v in enumerate(raw) if not _is_length_of(ix, v, raw[i + 1] if i + 1 < len(raw) else None)]
+
+
+def hash_framing(ix, key):
+    """'length-prefixed' when every variable-length input but the last is preceded by its length, 'constant-separated'
+    when a literal stands between them, else 'none' (then two different pairs can concatenate to the same bytes)"""
+    raw = hash_inputs_raw(ix, key)
+    var = [i for i, v in enumerate(raw) if not _is_length_of(ix, v, raw[i + 1] if i + 1 < len(raw) else None)
+           and tag(ix.inline(v)) not in ("int", "const", "bytes")]
+    if len(var) <= 1:
+        return "single-input"
+    ok_len = all(i > 0 and _is_length_of(ix, raw[i - 1], raw[i]) for i in var[:-1])
+    if ok_len:
+        return "length-prefixed"
+    ok_sep = all(any(tag(ix.inline(raw[j])) in ("int", "const", "bytes") for j in range(a + 1, b)) for a, b in zip(var, var[1:]))
+    return "constant-separated" if ok_sep else "none"
+
+
+def hash_inputs_raw(ix, key):
+    """every byte string fed to the position-key hasher, in order"""
     out = []
     key = ix.inline(key)
     seen = set()
